@@ -513,6 +513,111 @@ fn zero_row_probe<T: Sc>(rep: &mut Report) {
     }
 }
 
+/// Beyond the universe TLC enumerates (32-bit determinants stop at M+P = 4): a fit with M = 7 basis
+/// functions and one nonlinear parameter (8 x 8 covariance), N = 58 (50 degrees of freedom, tabulated).
+/// No exact oracle: certificates computed from the RETURNED parameters and coefficients with the
+/// harness' own model - chi2 (N-M-P) = |r_w|^2, Cov (H^T H) = chi2 I, variances = diagonal, correlation
+/// from the covariance, band = t sqrt(h_i^T Cov h_i).
+fn stats_certificate_probe(rep: &mut Report) {
+    type T = f64;
+    let (n, h) = (58usize, 3usize);
+    let m = 2 * h + 1;
+    let tq50 = [0.679428, 1.010755, 1.675905, 2.008559, 2.677793];
+    let ps = [0.5, 0.683, 0.9, 0.95, 0.99];
+    for weighted in [false, true] {
+        let model0 = FourierModel::<T>::new(n, h, 1.0);
+        let w: Option<Vec<T>> = if weighted { Some((0..n).map(|i| 0.5 + ((i * 7) % 11) as f64 / 8.0).collect()) } else { None };
+        let pt = model0.phi64(1.03);
+        let y = DMatrix::from_fn(n, 1, |i, _| {
+            let mut v = 0.0;
+            for j in 0..m {
+                v += pt[(i, j)] * (((j * 5) % 7) as f64 - 2.5) / (1.0 + j as f64);
+            }
+            v + 0.02 * (((i * 13) % 17) as f64 - 8.0)
+        });
+        let flav = format!("statistics certificate probe M={} P=1 N={} weighted={}", m, n, weighted);
+        let det = |what: &str, dv: f64| json!({"flavour": flav, "what": what, "dev": dv});
+        let Ok(prob) = build_problem(FourierModel::<T>::new(n, h, 1.0), false, false, &y, w.as_deref(), None) else {
+            rep.tool_error(format!("cannot build {flav}"));
+            continue;
+        };
+        let out = match catch_unwind(AssertUnwindSafe(|| prob.fit_stats(&LmCfg::default(), &ps, &[]))) {
+            Err(_) => {
+                rep.violation("C12", det("fit_with_statistics panicked", 0.0));
+                continue;
+            }
+            Ok(o) => o.expect("single rhs"),
+        };
+        let (Some(st), Some(c)) = (out.stats, out.fit.fin.coeffs.as_ref()) else {
+            rep.count("stats_certificate_probe_fit_failed", 1);
+            continue;
+        };
+        let wv = out.fit.fin.params[0];
+        let wi = |i: usize| w.as_ref().map(|w| w[i]).unwrap_or(1.0);
+        let phi = model0.phi64(wv);
+        let dm = {
+            use varpro::model::SeparableNonlinearModel;
+            let mut mm = FourierModel::<T>::new(n, h, wv);
+            let _ = mm.set_params(nalgebra::DVector::from_element(1, wv));
+            mm.eval_partial_deriv(0).expect("derivative")
+        };
+        let k = m + 1;
+        // unweighted rows h_i = [Phi_i | D_i c], weighted H = W h
+        let hrow = |i: usize, j: usize| if j < m { phi[(i, j)] } else { (0..m).map(|l| dm[(i, l)] * c[(l, 0)]).sum::<f64>() };
+        let mut g = DMatrix::<f64>::zeros(k, k);
+        for a in 0..k {
+            for b in 0..k {
+                g[(a, b)] = (0..n).map(|i| wi(i) * wi(i) * hrow(i, a) * hrow(i, b)).sum();
+            }
+        }
+        let ss: f64 = st.wres.iter().map(|v| v * v).sum();
+        let dof = (n - k) as f64;
+        let dchi = (st.chi2 * dof - ss).abs() / ss.max(1e-300);
+        rep.check("C12", dchi <= 1e-9, dchi, || det("reduced_chi2 (N-M-P) != |weighted residuals|^2", dchi));
+        if st.cov.nrows() != k || st.cov.ncols() != k {
+            rep.violation("C13", det("covariance shape", 0.0));
+            continue;
+        }
+        let prod = &st.cov * &g;
+        let mut worst = 0.0f64;
+        for a in 0..k {
+            for b in 0..k {
+                let e = if a == b { st.chi2 } else { 0.0 };
+                worst = worst.max((prod[(a, b)] - e).abs() / st.chi2.abs().max(1e-300));
+            }
+        }
+        rep.check("C13", worst <= 1e-6, worst, || det("Cov (H^T H) != sigma^2 I with H rebuilt from the returned parameters and coefficients (order: coefficients, then alpha)", worst));
+        let diag_ok = (0..m).all(|i| st.lin_var[i].to_bits() == st.cov[(i, i)].to_bits()) && st.nonlin_var.len() == 1 && st.nonlin_var[0].to_bits() == st.cov[(m, m)].to_bits();
+        rep.check("C13", diag_ok, 0.0, || det("variance accessors are not the diagonal blocks", 0.0));
+        let mut wc = 0.0f64;
+        for a in 0..k {
+            for b in 0..k {
+                let e = st.cov[(a, b)] / (st.cov[(a, a)] * st.cov[(b, b)]).sqrt();
+                wc = wc.max((st.corr[(a, b)] - e).abs());
+            }
+        }
+        rep.check("C13", wc <= 1e-9, wc, || det("correlation differs from cov_ij / sqrt(cov_ii cov_jj)", wc));
+        for (pi, (pv, band)) in st.bands.iter().enumerate() {
+            let mut wb = 0.0f64;
+            let mut scale = 0.0f64;
+            for i in 0..n.min(band.len()) {
+                let mut q = 0.0;
+                for a in 0..k {
+                    for b in 0..k {
+                        q += hrow(i, a) * st.cov[(a, b)] * hrow(i, b);
+                    }
+                }
+                let e = tq50[pi] * q.max(0.0).sqrt();
+                scale = scale.max(e);
+                wb = wb.max((band[i] - e).abs());
+            }
+            let dv = wb / scale.max(1e-300);
+            rep.check("C14", band.len() == n && dv <= 2e-4, dv, || det(&format!("band radius at p={pv} differs from t(50) sqrt(h_i^T Cov h_i) (unweighted rows)"), dv));
+        }
+        rep.count("stats_certificate_probes", 1);
+    }
+}
+
 pub fn run(path: &str) -> Report {
     let st = crate::export::read_tagged(path, "VPST");
     let su = crate::export::read_tagged(path, "VPSU");
@@ -521,6 +626,7 @@ pub fn run(path: &str) -> Report {
     zero_residual_probes::<f32>(&mut total);
     zero_row_probe::<f64>(&mut total);
     zero_row_probe::<f32>(&mut total);
+    stats_certificate_probe(&mut total);
     let reps: Vec<Report> = st
         .par_iter()
         .enumerate()
